@@ -4,12 +4,12 @@
     models:   model/InmemKV.v (kvs/inmem/inmem.go, lazy expiry),
               model/RedisKV.v over model/RedisSrv.v (kvs/redis/redis.go as the server
               commands it issues; TTL = max(ExpiresAt - now, 1 ms)),
-              model/legacy/RedisKVLegacy.v (Create before fix 100dccd)
+              model/legacy/RedisCreateLegacy.v (Create before fix 100dccd)
     proofs:   proofs/C03_KV.v, C06_Expiry.v, C03_Inmem.v, C03_Redis.v, C03_Agree.v
 
     Time is in ns; an operation sequence is a list of (instant, operation). *)
 From Coq Require Import List ZArith NArith Arith Bool Lia.
-From GL Require Import spec.KV model.InmemKV model.RedisSrv model.RedisKV model.legacy.RedisKVLegacy
+From GL Require Import spec.KV model.InmemKV model.RedisSrv model.RedisKV model.legacy.RedisCreateLegacy
   proofs.C03_KV proofs.C06_Expiry proofs.C03_Inmem proofs.C03_Redis proofs.C03_Agree.
 Import ListNotations.
 
@@ -158,7 +158,7 @@ Proof. vm_compute. repeat split; reflexivity. Qed.
     are positive and below the counter): the hypotheses of the statements below *)
 Theorem C03_reachable_wf_fresh : forall ops,
   wf (snd (run init ops)) /\ fresh (snd (run init ops)).
-Proof. intros ops. exact (run_wf_fresh ops init wf_init fresh_init). Qed.
+Proof. exact reachable_wf_fresh. Qed.
 Print Assumptions C03_reachable_wf_fresh.
 
 Definition C03_ex_s : state := snd (run init C03_ex_ops).
